@@ -6,6 +6,7 @@ import Gomacro.Drv.C09
 import Gomacro.Drv.C16
 import Gomacro.Drv.C01
 import Gomacro.Drv.Sem
+import Gomacro.Drv.C15
 /-! JSON-lines driver: one request object per line in, one reply per line out.
 Unknown ops are `bad-op`, never defaulted.  Core-only imports (links as an executable). -/
 open Lean Gomacro.Drv
@@ -23,7 +24,8 @@ def handlers : List (String × Handler) := [
   ("c16.one", c16One),
   ("c16.query", c16Query),
   ("c01.idents", c01Idents),
-  ("sem.encode", semEncode)
+  ("sem.encode", semEncode),
+  ("c15.judge", c15Judge)
 ]
 
 def handleLine (line : String) : String :=
